@@ -290,6 +290,7 @@ def shards(tier):
     for i in range(0, len(starts), 5):
         out.append(("seq", starts[i:i + 5]))
     out.append(("seq-legacy",))
+    out.append(("legacy-threads",))
     out.append(("decode",))
     return out
 
@@ -347,6 +348,62 @@ def run_shard(shard):
                     s0 = 1 if s0 >= 255 else s0 + 1
                 check_async_batch(res, "tridonic", cmds[i:i + 350], s0, f"seq-from-{start}")
         sample(res, {"tridonic_sequence_starts": shard[1], "sends_each": 700})
+    elif k == "legacy-threads":
+        # legacy asynchronous Tridonic driver: reports are decoded on the listener THREAD while the application thread is in
+        # send().  One-preemption exploration: the sender is suspended before every line of its send() in turn (fresh forked
+        # child each); the listener then handles whatever the gateway has to report by then (the answer - once the frame has
+        # been written); anything not yet reported is reported after send() returns.  The callback gets the outcome exactly once.
+        from dalimc.core.preempt import one_preemption
+        from dalimc.core import repo
+        import dali.driver.tridonic as TL
+        from dali.gear.general import QueryActualLevel, Off
+        from dali.address import GearShort
+        import struct as _st
+
+        class Backend:
+            def __init__(self):
+                self.written = []
+
+            def write(self, data):
+                self.written.append(bytes(data))
+        for cmd, outcome in ((QueryActualLevel(GearShort(5)), ("value", 0x42)), (QueryActualLevel(GearShort(5)), ("none",)), (Off(GearShort(5)), ("none",))):
+            d = TL.AsyncTridonicDALIUSBDriver.__new__(TL.AsyncTridonicDALIUSBDriver)
+            d.backend = Backend()
+            d._transactions = {}
+            d.debug = False
+            calls, delivered = [], []
+
+            def cb(resp, **kw):
+                raw = getattr(resp, "raw_value", resp)
+                calls.append((type(resp).__name__, None if raw is None else raw.as_integer))
+
+            def deliver():
+                if d.backend.written and not delivered:
+                    delivered.append(1)
+                    sn = d.backend.written[0][1]
+                    rep = bytearray(16)
+                    rep[0] = 0x12
+                    rep[1] = 0x72 if outcome[0] == "value" else 0x71
+                    rep[5] = outcome[1] if outcome[0] == "value" else 0
+                    rep[8] = sn
+                    d.receive(bytes(rep))
+                return list(calls)
+            want = [(cmd.response.__name__, outcome[1] if outcome[0] == "value" else None)] if cmd.response else [("NoneType", None)]
+            points = 0
+            for r in one_preemption(lambda: (d.send(cmd, callback=cb), deliver())[1], deliver, repo.REPO + "/dali/driver/tridonic.py", max_points=80):
+                points += 1
+                res["evaluations"] += 1
+                res["transitions"] += 1
+                got = r["a"][1] if r["a"][0] == "v" else r["a"]
+                if got != want:
+                    add_violation(res, "C18:tridonic-legacy:report-lost-between-threads", f"async legacy Tridonic, {type(cmd).__name__}, gateway reports {outcome}: sender "
+                                  f"suspended before its line {r['k']} while the listener thread handled the report: callback calls {got}, expected {want}",
+                                  {"driver": "tridonic-legacy", "what": "legacy-threads", "bits": 16, "value": cmd.frame.as_integer, "twice": False, "cls": type(cmd).__name__})
+                    break
+            if points < 5:
+                raise RuntimeError(f"HARNESS: only {points} preemption points in AsyncTridonicDALIUSBDriver.send")
+            res["distinct"].add(("legacy-threads", type(cmd).__name__, outcome[0]))
+        sample(res, {"legacy_async_tridonic_thread_exploration": True})
     elif k == "seq-legacy":
         import dali.driver.tridonic as TL
         import dali.driver.hasseb as HL
@@ -630,6 +687,8 @@ def replay(case):
         return [v for v in res["violations"] if v["case"]["driver"] == d]
     if what == "seq":
         return run_shard(("seq-legacy",))["violations"]
+    if what == "legacy-threads":
+        return run_shard(("legacy-threads",))["violations"]
     if what.startswith("seq-from-"):
         return run_shard(("seq", [int(what.split("-")[-1])]))["violations"]
     if d in ASYNC:
